@@ -48,6 +48,7 @@ var readOnlyCallees = map[string]bool{
 	"bytes.Equal": true, "bytes.Compare": true, "bytes.HasPrefix": true, "bytes.Contains": true, "slices.Contains": true,
 	"slices.Index": true, "slices.Equal": true, "strings.Contains": true, "strings.HasPrefix": true, "strings.EqualFold": true,
 	"strings.Join": true, "fmt.Sprintf": true, "fmt.Errorf": true, "bcd.Decode": true,
+	"(*strings.Builder).Write": true, "(*bytes.Buffer).Write": true, "(*strings.Builder).WriteString": true, "(*bytes.Buffer).WriteString": true,
 }
 
 // readOnlyUses: every (transitive) use of v reads through it and never writes or lets it escape.
@@ -526,6 +527,9 @@ func (w *Walker) foldGlobal(g *ssa.Global) *Term {
 		if gi.readOnly && isValueStdType(g.Type().Underlying().(*types.Pointer).Elem()) {
 			return w.evalInitSlice(g)
 		}
+		if gi.readOnly {
+			return w.evalInitCall(g)
+		}
 		return nil
 	}
 	et := g.Type().Underlying().(*types.Pointer).Elem()
@@ -723,4 +727,130 @@ func (w *Walker) tableLookup(m, k *Term, fr *frame, x *ssa.Lookup) (*Term, bool)
 		return &Term{Op: "tuple", Args: []*Term{z, mkBool(false)}, Typ: x.Type()}, true
 	}
 	return z, true
+}
+
+// ---------------------------------------------------------------------------------------
+// Computed tables. `var table = func() (t [256]entry) { for i := range t { ... }; return }()` is a constant
+// table written as a program: the initialiser calls a function without free variables, with constant
+// arguments, whose body only computes on its own local storage (arithmetic, comparisons, element and field
+// stores, pure calls). Such a call has exactly one path in the walker's domain, with every branch decided by
+// constants; its result is the table. Anything else (a read of another variable, a symbolic branch, more
+// than one path) leaves the global symbolic.
+// ---------------------------------------------------------------------------------------
+
+var initCallMemo = map[*ssa.Global]*Term{}
+
+func computeOnly(f *ssa.Function, seen map[*ssa.Function]bool) bool {
+	if f == nil || f.Blocks == nil || len(f.FreeVars) != 0 {
+		return false
+	}
+	if seen[f] {
+		return true
+	}
+	seen[f] = true
+	for _, b := range f.Blocks {
+		for _, in := range b.Instrs {
+			switch x := in.(type) {
+			case *ssa.Go, *ssa.Defer, *ssa.Send, *ssa.Select, *ssa.MapUpdate, *ssa.MakeChan, *ssa.MakeClosure, *ssa.RunDefers:
+				return false
+			case *ssa.Store:
+				if !localAddr(x.Addr) {
+					return false
+				}
+			case *ssa.UnOp:
+				if x.Op.String() == "<-" {
+					return false
+				}
+				if x.Op.String() == "*" && !localAddr(x.X) {
+					return false
+				}
+			case ssa.CallInstruction:
+				c := x.Common()
+				if c.IsInvoke() {
+					return false
+				}
+				if bi, ok := c.Value.(*ssa.Builtin); ok {
+					switch bi.Name() {
+					case "len", "cap", "min", "max", "copy", "append":
+					default:
+						return false
+					}
+					break
+				}
+				cal := c.StaticCallee()
+				if cal == nil {
+					return false
+				}
+				if inModule(cal) {
+					if !computeOnly(cal, seen) {
+						return false
+					}
+				} else if !isPureName(calleeName(cal)) {
+					return false
+				}
+			}
+			for _, op := range in.Operands(nil) {
+				if _, isG := (*op).(*ssa.Global); isG {
+					return false
+				}
+			}
+		}
+	}
+	return true
+}
+
+func (w *Walker) evalInitCall(g *ssa.Global) *Term {
+	if v, ok := initCallMemo[g]; ok {
+		return v
+	}
+	initCallMemo[g] = nil
+	init := initFn(g)
+	if init == nil {
+		return nil
+	}
+	var store *ssa.Store
+	for _, b := range init.Blocks {
+		for _, in := range b.Instrs {
+			if st, ok := in.(*ssa.Store); ok && rootOf(st.Addr) == ssa.Value(g) {
+				if store != nil || st.Addr != ssa.Value(g) {
+					return nil
+				}
+				store = st
+			}
+		}
+	}
+	if store == nil {
+		return nil
+	}
+	call, ok := store.Val.(*ssa.Call)
+	if !ok {
+		return nil
+	}
+	f := call.Call.StaticCallee()
+	if f == nil || !inModule(f) || !computeOnly(f, map[*ssa.Function]bool{}) {
+		return nil
+	}
+	var args []*Term
+	for _, a := range call.Call.Args {
+		c, ok := a.(*ssa.Const)
+		if !ok || c.Value == nil {
+			return nil
+		}
+		args = append(args, mkConst(c.Value, c.Type()))
+	}
+	nw := NewWalker(w.P)
+	nw.Finite = true
+	nw.LoopFuel = 8
+	nw.MaxPaths = 4
+	nw.Inline = func(fn *ssa.Function, d int) bool { return inModule(fn) && fn.Blocks != nil }
+	paths := nw.Walk(f, args, nil)
+	if len(paths) != 1 || paths[0].Outcome != "return" || len(paths[0].Results) != 1 || len(paths[0].Decisions) != 0 {
+		return nil
+	}
+	v := paths[0].Results[0]
+	if v == nil || hasImpure(v, 0) || hasClobber(v, 0) {
+		return nil
+	}
+	initCallMemo[g] = v
+	return v
 }
